@@ -648,30 +648,57 @@ def check_chain_ring(case, ctx: Ctx) -> None:
 
 
 def check_sketch_counts(case, ctx: Ctx) -> None:
+    """mids: None | int (a single sketch passed bare) | list of 1-3 ints (a list of sketches)"""
     o, e1, e2, e3 = frame_of(case["frame"])
-    n1, n2, nm = case["n1"], case["n2"], case["nmid"]
+    n1, n2, mids = case["n1"], case["n2"], case["mids"]
 
     def ann(n, z):
         return fixture("LoftedShape", lambda: Annulus(o + z * e3, o + z * e3 + e1, e3, 0.5, n), n=n)
 
     s1, s2 = ann(n1, 0.0), ann(n2, 1.0)
-    mid = None if nm is None else ([ann(nm, 0.5)] if case["mid_as_list"] else ann(nm, 0.5))
-    same = n1 == n2 and (nm is None or nm == n1)
-    klass = "equal-counts" if same else ("end-differs" if n1 != n2 else "mid-differs")
-    judge(ctx, "LoftedShape", klass, "accept" if same else "reject", lambda: LoftedShape(s1, s2, mid), n1=n1, n2=n2, nmid=nm)
-    ctx.nt(not same and (abs(n1 - n2) <= 1 and (nm is None or abs(nm - n1) <= 1)) or same)
+    if mids is None:
+        counts: List[int] = []
+        mid: Any = None
+    elif isinstance(mids, int):
+        counts = [mids]
+        mid = ann(mids, 0.5)
+    else:
+        counts = list(mids)
+        mid = [ann(n, (k + 1) / (len(mids) + 1)) for k, n in enumerate(mids)]
+    wrong = [n for n in counts if n != n1]
+    same = n1 == n2 and not wrong
+    if same:
+        klass = "equal-counts"
+    elif n1 != n2:
+        klass = "end-differs"
+    elif len(wrong) == len(counts):
+        klass = "every-mid-differs"
+    else:
+        klass = "some-mid-differs:" + ("more-faces" if all(n > n1 for n in wrong) else "fewer-faces" if all(n < n1 for n in wrong)
+                                       else "both")
+    judge(ctx, "LoftedShape", klass, "accept" if same else "reject", lambda: LoftedShape(s1, s2, mid), n1=n1, n2=n2, mids=mids)
+    ctx.label("mid=" + ("none" if mids is None else "bare" if isinstance(mids, int) else f"list{len(mids)}"))
+    ctx.nt(same or abs(n1 - n2) == 1 or any(abs(n - n1) == 1 for n in wrong))
 
 
 @st.composite
 def sketch_case(draw):
-    n1 = draw(st.integers(3, 9))
-    n2 = draw(st.one_of(st.just(n1), st.sampled_from([n1 - 1, n1 + 1]), st.integers(3, 9)))
-    nm = draw(st.one_of(st.none(), st.just(n1), st.sampled_from([n1 - 1, n1 + 1])))
-    if n2 < 3:
-        n2 = 3
-    if nm is not None and nm < 3:
-        nm = 3
-    return {"frame": draw(frame_st()), "n1": n1, "n2": n2, "nmid": nm, "mid_as_list": draw(st.booleans())}
+    n1 = draw(st.sampled_from([5, 3, 4, 6, 7, 8, 9]))
+    near = pick((3, st.just(n1)), (3, st.just(n1 + 1)), (1, st.just(max(3, n1 - 1))), (1, st.integers(3, 10)))
+    n2 = draw(pick((5, st.just(n1)), (1, near)))
+    shape = draw(st.sampled_from(["list2", "bare", "none", "list1", "list3", "bare", "list2", "list3"]))
+    if shape == "none":
+        mids: Any = None
+    elif shape == "bare":
+        mids = draw(near)
+    else:
+        k = int(shape[-1])
+        mids = draw(st.lists(near, min_size=k, max_size=k))
+    return {"frame": draw(frame_st()), "n1": n1, "n2": n2, "mids": mids}
+
+
+_FIXED_SKETCH = [{"frame": {"axis": [0.0, 0.0, 1.0], "angle": 0.0, "origin": [0.0, 0.0, 0.0]}, "n1": 5, "n2": 5, "mids": m}
+                 for m in (None, 5, 6, 4, [5], [6], [5, 5], [5, 6], [6, 5], [5, 4], [4, 6], [5, 5, 6], [6, 5, 4], [5, 5, 5])]
 
 
 # --------------------------------------------------------------------------------------------------
@@ -917,8 +944,9 @@ CELLS = [
     Cell("C20/chain/extruded-ring", chain_case(["ring"]), check_chain_ring, 60, 2500, "ExtrudedRing.chain likewise",
          fixed_cases=_fixed_chain("ring")),
     # face counts
-    Cell("C20/sketch-count/lofted-shape", sketch_case(), check_sketch_counts, 80, 3000,
-         "LoftedShape(sketch_1, sketch_2, sketch_mid): accepted iff all sketches have the same number of faces"),
+    Cell("C20/sketch-count/lofted-shape", sketch_case(), check_sketch_counts, 120, 4000,
+         "LoftedShape(sketch_1, sketch_2, sketch_mid) with sketch_mid None / one bare sketch / a list of 1-3 sketches: accepted iff the "
+         "end sketch and EVERY mid sketch have the start sketch's number of faces", fixed_cases=_FIXED_SKETCH),
     # clamps and links
     Cell("C20/clamp/second", clamp_case(), check_second_clamp, 60, 2500, "a second clamp (free / line / plane) on a clamped vertex is rejected"),
     Cell("C20/clamp/no-vertex", clamp_case(), check_clamp_no_vertex, 60, 2500, "a clamp >= 1e-4 away from every vertex is rejected, on a vertex accepted"),
